@@ -339,9 +339,10 @@ def g_hwconst():
     from cast import ExprS, Inc, Raw, If, Block, Func, Call, Deref, Index
     from families import V, C, A, B, mkprog
     P = []
-    for kind, addr in itertools.product(('kptr', 'ptrk'), (0x3c, 0xfd, 0x100, 0x282, 0x1fff)):
+    for kind, addr in itertools.product(('kptr', 'ptrk'), (0x3c, 0xfd, 0x100, 0x101, 0x282, 0x1fff)):
         uses = lambda n: [A(V('va'), Deref(n)), A(V('vb'), Index(n, V('X'))), A(V('vc'), Index(n, V('Y'))), A(V('vd'), B('+', V('va'), Deref(n))), If(B('==', Deref(n), C(3)), A(V('va'), C(1))),
-                          Raw('load', Deref(n)), A(V('va'), Index(n, C(2)))] + ([A(Deref(n), V('va')), A(Index(n, V('X')), V('vb')), Raw('store', Deref(n))] if kind == 'ptrk' else [])
+                          Raw('load', Deref(n)), A(V('va'), Index(n, C(2)))] + ([A(Deref(n), V('va')), A(Index(n, V('X')), V('vb')), Raw('store', Deref(n)), A(Index(n, V('X')), V('Y')), A(Index(n, V('Y')), V('X')),
+                                                                       A(Deref(n), V('X')), A(Deref(n), V('Y'))] if kind == 'ptrk' else []) + [A(V('X'), Index(n, V('Y'))), A(V('Y'), Index(n, V('X'))), A(V('X'), Deref(n))]
         P.append(mkprog('hwconst/local/%s/%x' % (kind, addr), [ExprS(Call('poll', []))], funcs=[Func('poll', None, [], Block(uses('LR'), decls=[(kind, 'LR', C(addr))]))]))
         P.append(mkprog('hwconst/local-inline/%s/%x' % (kind, addr), [ExprS(Call('poll', [])), ExprS(Call('poll', []))], funcs=[Func('poll', None, [], Block(uses('LR'), decls=[(kind, 'LR', C(addr))]), inline=True)]))
         pre = ('const unsigned char *GR = 0x%x;\n' if kind == 'kptr' else 'unsigned char * const GR = 0x%x;\n') % addr
